@@ -9,12 +9,12 @@ ID = "C09"
 LEVEL = "exploration"
 SHARDS = {"quick": 16, "thorough": 16}
 RULE = (
-    "Scenarios {cold store; warm store + cold cache; warm cache} x {same key; the same call presented positionally / via partial() / by keywords; different keys of one function; different functions; a caller with a nested call racing the nested call itself} x {filesystem, filesystem + cache} "
+    "Scenarios {cold store; warm store + cold cache; warm cache} x {same key; the same call presented positionally / via partial() / by keywords; different keys of one function; different functions; a caller with a nested call racing the nested call itself; two different calls publishing different values under one override key} x {filesystem, filesystem + cache} "
     "x 2-3 threads, each making one memento call. Every execution runs under a deterministic scheduler that owns the interleaving: line events in runner_local/storage_base/runner/call_stack and "
     "function-call events in every other twosigma.memento module are yield points; locks of the library are replaced (by type) with cooperative ones. Schedules: (i) systematic - every schedule with one preemption "
     "(each yield point x each other thread) per scenario (quick: every 2nd-4th yield point for the larger scenarios), thorough adds sampled two-preemption schedules; (ii) random - Hypothesis-generated preemption lists of length <= 8. "
     "Oracle: every thread returns the sequentially correct value, no exception (or deadlock) escapes; per distinct call not memoized beforehand the body ran exactly once; afterwards memory_usage == sum of resident sizes, "
-    "the LRU queue has no duplicates and equals the resident keys, and the set of resident keys with values equals that of a sequential execution of the same calls; the recorded invocations of each root call equal its sequential record. "
+    "the LRU queue has no duplicates and equals the resident keys, and the set of resident keys with values equals that of a sequential execution of the same calls; the recorded invocations of each root call equal its sequential record; called again sequentially after the threads finished, every distinct call is served (no body) with its own value. "
     "Non-trivial = a schedule whose preemption was actually taken while the preempted thread was inside the library; distinct by (scenario, preemption)."
 )
 ASSUMPTIONS = [
@@ -38,6 +38,8 @@ for store in ("cold", "warm-cold-cache", "warm-cache"):
 SCENARIOS.append({"store": "cold", "shape": "same", "backend": "fsc", "threads": 3})
 SCENARIOS.append({"store": "warm-cache", "shape": "same", "backend": "fsc", "threads": 3})
 SCENARIOS.append({"store": "cold", "shape": "presented", "backend": "fsc", "threads": 3})
+SCENARIOS.append({"store": "cold", "shape": "override-shared", "backend": "fs", "threads": 2})
+SCENARIOS.append({"store": "cold", "shape": "override-shared", "backend": "fsc", "threads": 3})
 
 
 def _calls(scn):
@@ -49,6 +51,9 @@ def _calls(scn):
         return [["cv", 1 + i] for i in range(n)]
     if shape == "difffn":
         return [["cv", 1], ["cv2", 1], ["cv", 1]][:n]
+    if shape == "override-shared":
+        # two different calls publishing different values under one override key
+        return [["ck", 1], ["ck2", 1], ["ck", 1]][:n]
     if shape == "presented":
         # one call, presented positionally / through partial application / by keywords
         return [["cp", 1], ["cp.partial", 1], ["cp.kw", 1]][:n]
@@ -67,11 +72,13 @@ def _child(spec):
     scn = spec["scenario"]
     calls = _calls(scn)
     VAL = {1: "value-one", 2: "value-two", 3: "value-three"}
-    for fname in ("cv", "cv2", "cp"):
+    for fname in ("cv", "cv2", "cp", "ck"):
         for k, v in VAL.items():
             rt.TABLE[(fname, k)] = (lambda v: (lambda: v))(v)
+    for k, v in VAL.items():
+        rt.TABLE[("ck2", k)] = (lambda v: (lambda: "other-" + v))(v)
     expected = {"cv": lambda k: VAL[k], "cv2": lambda k: VAL[k], "cc": lambda k: [VAL[k], 1], "cp": lambda k: VAL[k],
-                "cp.partial": lambda k: VAL[k], "cp.kw": lambda k: VAL[k]}
+                "cp.partial": lambda k: VAL[k], "cp.kw": lambda k: VAL[k], "ck": lambda k: VAL[k], "ck2": lambda k: "other-" + VAL[k]}
     counter = [0]
 
     def prepare():
@@ -131,6 +138,15 @@ def _child(spec):
                 out["records"]["%s:%s" % (f, k)] = record_of(f, k)
             except BaseException as e:  # noqa
                 out["records"]["%s:%s" % (f, k)] = "!%s" % type(e).__name__
+        # afterwards, sequentially: every distinct call again (must be served, with its own value)
+        out["recalls"] = []
+        rt.take()
+        for f, k in sorted({(f, k) for f, k in calls}):
+            try:
+                r = cfuncs.FUNCS[f](k)
+                out["recalls"].append({"fn": f, "k": k, "ok": r, "want": expected[f](k), "runs": [x[0] for x in rt.take()]})
+            except BaseException as e:  # noqa
+                out["recalls"].append({"fn": f, "k": k, "exc": type(e).__name__, "msg": str(e)[:200], "runs": [x[0] for x in rt.take()]})
         if record_where:
             out["where"] = s.trace
         shutil.rmtree(d, ignore_errors=True)
@@ -175,6 +191,17 @@ def judge(scn, pre, res, ref):
         want = 1 if scn["store"] == "cold" else 0
         if n != want:
             out.violation("%s: body of %s(%s) ran %d times, expected %d" % (label, f, k, n, want), symptom="runs", runs=min(n, 2), at=where)
+    if not out.violations:
+        for rr in res.get("recalls", []):
+            if "exc" in rr:
+                out.violation("%s: calling %s(%s) again after the threads finished raised %s: %s" % (label, rr["fn"], rr["k"], rr["exc"], rr["msg"]),
+                              symptom="later-call-raised", exc=rr["exc"], at=where)
+            elif rr["ok"] != rr["want"]:
+                out.violation("%s: calling %s(%s) again after the threads finished returned %r, its own value is %r" % (label, rr["fn"], rr["k"], rr["ok"], rr["want"]),
+                              symptom="later-call-wrong-value", at=where)
+            elif rr["runs"]:
+                out.violation("%s: %s(%s) is not memoized after the threads finished (body ran again: %r)" % (label, rr["fn"], rr["k"], rr["runs"]),
+                              symptom="not-memoized-afterwards", at=where)
     c, rc = res["cache"], ref["cache"]
     if c is not None:
         if c["usage"] != c["sum"]:
